@@ -114,6 +114,13 @@ func same(what string, got, want []fasta.Fasta) error {
 
 func gz(b []byte) []byte { return vk.Gzip(b) }
 
+func clip(s string) string {
+	if len(s) > 300 {
+		return s[:300] + "…"
+	}
+	return s
+}
+
 // bounded runs f under a deadline: a parser that never closes its channel blocks Parse forever.
 func bounded(what string, f func() []fasta.Fasta) ([]fasta.Fasta, error) {
 	var out []fasta.Fasta
@@ -139,6 +146,12 @@ func checkRoundtrip(c Case) error {
 	_ = fasta.Build([]fasta.Fasta{{Name: "x", Sequence: "a"}})
 	if string(text) != snapshot {
 		return vk.Errf("the bytes returned by Build(x) changed when other records were built afterwards: %q, was %q", string(text), snapshot)
+	}
+	// the text as any other FASTA tool reads it ('>' header lines, sequence lines joined)
+	if ref, ok := referenceParse(text); !ok {
+		return vk.Errf("Build(x) is not FASTA text to the harness's reference reader: %q", clip(string(text)))
+	} else if err := same("Build(x) read by the harness's reference FASTA reader", ref, want); err != nil {
+		return err
 	}
 	got, err := bounded("Parse(Build(x))", func() []fasta.Fasta { return fasta.Parse(bytes.NewReader(text)) })
 	if err != nil {
@@ -566,21 +579,28 @@ type BytesCase struct {
 
 func referenceParse(data []byte) ([]fasta.Fasta, bool) {
 	var recs []fasta.Fasta
-	cur := -1
+	var seq strings.Builder
+	flush := func() {
+		if len(recs) > 0 {
+			recs[len(recs)-1].Sequence = seq.String()
+			seq.Reset()
+		}
+	}
 	for _, line := range strings.Split(string(data), "\n") {
 		line = strings.TrimSuffix(line, "\r")
 		switch {
 		case line == "" || line[0] == ';':
 		case line[0] == '>':
+			flush()
 			recs = append(recs, fasta.Fasta{Name: line[1:]})
-			cur++
 		default:
-			if cur < 0 {
+			if len(recs) == 0 {
 				return nil, false
 			}
-			recs[cur].Sequence += line
+			seq.WriteString(line)
 		}
 	}
+	flush()
 	return recs, len(recs) > 0
 }
 
